@@ -11,6 +11,7 @@ import (
 )
 
 func init() {
+	verifHarnesses["VerifHarness_C20_no_untainted"] = VerifHarness_C20_no_untainted
 	verifHarnesses["VerifHarness_C20_untaint_odd"] = VerifHarness_C20_untaint_odd
 	verifHarnesses["VerifHarness_C19_bigbatch"] = VerifHarness_C19_bigbatch
 	verifHarnesses["VerifHarness_C20_forever"] = VerifHarness_C20_forever
@@ -463,4 +464,40 @@ func VerifHarness_C20_untaint_odd() {
 			verifReach("C20.untaint-of-doubly-tainted-node") // (removing one of the two leaves the key on the node)
 		}
 	}
+}
+
+// VerifHarness_C20_no_untainted: the optional triggers (max_node_age, scale_on_starve) on a group
+// that has no untainted node at all: no nodes, or only cordoned / force-tainted ones, with
+// min_nodes 0 and a pending pod or none. The scan must not panic.
+// shape: [nodes]
+func VerifHarness_C20_no_untainted() {
+	N := verifShape(0)
+	w := newWorld(0)
+	o := groupOpts(0)
+	o.MinNodes, o.MaxNodes = 0, 5
+	switch verifChoice("trigger", 3) {
+	case 1:
+		o.MaxNodeAge = "1h"
+	case 2:
+		o.ScaleOnStarve = true
+	}
+	g := w.addGroup(o, 0, 5, 0)
+	for i := 0; i < N; i++ {
+		is := "n" + strconv.Itoa(i)
+		switch verifChoice(is+".kind", 3) {
+		case 0:
+			w.addNode(g, tcNone, true, 0, 0, 9000, true) // cordoned
+		case 1:
+			w.addNode(g, tcForce, false, 0, 0, 9000, true)
+		case 2:
+			w.addNode(g, tcEsc, false, 0, 10, 9000, true)
+		}
+	}
+	if verifChoice("pendingPod", 2) == 1 {
+		w.addPod(g, -1, false, verifInt("p0.cpu", 0, 2*w.cpuPerNode), 1<<20, true)
+	}
+	w.build()
+	err := w.ctrl.RunOnce()
+	verifAssert("C20.no-untainted-scan-completes", err == nil)
+	verifReach("C20.scan-without-untainted-nodes")
 }
